@@ -36,16 +36,22 @@ type Solver struct {
 	emitStack [][]*Term      // terms defined at each level
 	levelGen  []int          // generation stamp of each live level
 
-	dirty      bool // something was sent since the last check-sat: the model is stale
-	Queries    int
-	SatCount   int
-	UnsatCount int
-	UnknownCnt int
-	Errors     []string
-	Time       time.Duration
-	log        io.Writer // optional transcript
-	name       string
-	timeoutMs  int
+	defAsserted map[*Term]int // defining constraint -> level it is asserted at
+	dirty       bool          // something was sent since the last check-sat: the model is stale
+	SendTime    time.Duration
+	ValuesTime  time.Duration
+	ValuesCalls int
+	ReadTime    time.Duration
+	SendBytes   int64
+	Queries     int
+	SatCount    int
+	UnsatCount  int
+	UnknownCnt  int
+	Errors      []string
+	Time        time.Duration
+	log         io.Writer // optional transcript
+	name        string
+	timeoutMs   int
 }
 
 func solverCommand(kind string, timeoutMs int) (string, []string) {
@@ -82,6 +88,13 @@ func NewSolver(kind string, timeoutMs int, transcript io.Writer) (*Solver, error
 	}
 	s.send("(set-option :print-success false)")
 	s.send("(set-option :produce-models true)")
+	// declarations and definitions survive pop: hash-consed terms are sent once
+	if kind == "cvc5" {
+		s.send("(set-option :global-declarations true)")
+	} else {
+		s.send("(set-option :global-decls true)")
+	}
+	s.defAsserted = map[*Term]int{}
 	return s, nil
 }
 
@@ -101,11 +114,16 @@ func (s *Solver) send(line string) {
 	if s.log != nil {
 		fmt.Fprintln(s.log, line)
 	}
+	t0 := time.Now()
 	io.WriteString(s.in, line)
 	io.WriteString(s.in, "\n")
+	s.SendTime += time.Since(t0)
+	s.SendBytes += int64(len(line) + 1)
 }
 
 func (s *Solver) readLine() string {
+	t0 := time.Now()
+	defer func() { s.ReadTime += time.Since(t0) }()
 	line, err := s.out.ReadString('\n')
 	if err != nil {
 		s.Errors = append(s.Errors, "solver died: "+err.Error())
@@ -132,11 +150,10 @@ func (s *Solver) Pop() {
 		panic("solver: pop at level 0")
 	}
 	s.send("(pop 1)")
-	for _, n := range s.declStack[s.level] {
-		delete(s.declared, n)
-	}
-	for _, t := range s.emitStack[s.level] {
-		t.emitLevel = -1
+	for c, lvl := range s.defAsserted {
+		if lvl >= s.level {
+			delete(s.defAsserted, c)
+		}
 	}
 	s.declStack = s.declStack[:s.level]
 	s.emitStack = s.emitStack[:s.level]
@@ -153,39 +170,37 @@ func (s *Solver) PopTo(level int) {
 // ref returns the SMT text referring to t, emitting definitions for t's
 // not-yet-defined sub-terms first.
 func (s *Solver) ref(t *Term) string {
+	// defining constraints of auxiliary variables mentioned by t must be live
+	for _, c := range t.defs {
+		if _, ok := s.defAsserted[c]; !ok {
+			s.defAsserted[c] = s.level
+			s.send("(assert " + s.ref(c) + ")")
+		}
+	}
 	switch t.op {
 	case "const":
 		return t.constString()
 	case "var":
 		if _, ok := s.declared[t.name]; !ok {
 			s.send("(declare-const " + t.name + " " + t.sort.String() + ")")
-			s.declared[t.name] = s.level
-			s.declStack[s.level] = append(s.declStack[s.level], t.name)
-			if t.defn != nil {
-				key := fmt.Sprintf("defn@%p", t.defn)
-				if _, done := s.declared[key]; !done {
-					s.declared[key] = s.level
-					s.declStack[s.level] = append(s.declStack[s.level], key)
-					s.send("(assert " + s.ref(t.defn.cons) + ")")
-				}
-			}
+			s.declared[t.name] = 0
 		}
 		return t.name
 	}
-	if t.emitLevel >= 0 && t.emitLevel <= s.level && t.emitGen == s.levelGen[t.emitLevel] {
+	if t.emitLevel >= 0 {
 		return "t" + strconv.Itoa(t.id)
 	}
-	// iterative-ish: recursion depth equals term depth; terms are built by
-	// straight-line code so depth is moderate.
 	parts := make([]string, len(t.args))
 	for i, a := range t.args {
 		parts[i] = s.ref(a)
 	}
 	name := "t" + strconv.Itoa(t.id)
+	if t.emitLevel >= 0 {
+		// defined meanwhile by a nested reference (a defining constraint that mentions t)
+		return name
+	}
 	s.send("(define-fun " + name + " () " + t.sort.String() + " (" + t.head() + " " + strings.Join(parts, " ") + "))")
-	t.emitLevel = s.level
-	t.emitGen = s.levelGen[s.level]
-	s.emitStack[s.level] = append(s.emitStack[s.level], t)
+	t.emitLevel = 0
 	return name
 }
 
@@ -252,6 +267,8 @@ func (s *Solver) CheckWith(extra *Term) SatResult {
 // Values returns the model values of the given variables (after a Sat answer).
 // Must be called before any push/pop.
 func (s *Solver) Values(vars []*Term) map[string]uint64 {
+	t0 := time.Now()
+	defer func() { s.ValuesTime += time.Since(t0); s.ValuesCalls++ }()
 	res := map[string]uint64{}
 	if len(vars) == 0 {
 		return res
